@@ -33,7 +33,7 @@ for i in range(1, 21):
 man = {
  'version': 1,
  'setup_cmd': 'true',
- 'hooks': {'guard': 'ALLENABY_RLBOX_VERIF', 'enable': 'no hooks are needed: contracts are spliced into code extracted from /repo\'s working tree on every run', 'baseline_off_cmd': 'cd /repo && cmake -G Ninja -B _build -S . >/dev/null && cmake --build _build -j16 >/dev/null && ctest --test-dir _build -j8 --timeout 900', 'source_commits': [], 'add_only': True},
+ 'hooks': {'guard': 'ALLENABY_RLBOX_VERIF', 'enable': 'the deductive checks need no hook (contracts are spliced into code extracted from /repo\'s working tree on every run, guard off); the native replays of C09 counterexamples compile /repo\'s headers with -DALLENABY_RLBOX_VERIF, which turns RLBOX_VERIF_INTERLEAVE(n) in rlbox.hpp into a call to allenaby_rlbox_verif_interleave(n) between RLBox\'s successive reads of sandbox memory', 'baseline_off_cmd': 'cd /repo && cmake -G Ninja -B _build -S . >/dev/null && cmake --build _build -j16 >/dev/null && ctest --test-dir _build -j8 --timeout 900', 'source_commits': ['d6e25b4'], 'add_only': True},
  'engines': [{'name': 'cbmc-dfcc', 'path': '/verif/check', 'serves_properties': [c['property_id'] for c in checks], 'kind_free_text': 'clang JSON AST -> C emitter (vlib/emit.py) + contracts (props/*.py) + goto-instrument --dfcc + cbmc; native replay against /repo headers'}],
  'checks': checks,
  'not_applicable': na,
